@@ -12,7 +12,7 @@ import gzip
 import io
 import math
 import os
-import re
+
 import shutil
 import tempfile
 import xml.etree.ElementTree as ET
@@ -34,7 +34,7 @@ MANIFEST = dict(
          "real parser and compared shape by shape (order, kind, id, absolute geometry, paint, stroke width) with the "
          "source; second and third generation must agree with each other",
     note="differential: no reference semantics beyond XML well-formedness; geometry tolerance 4e-6 x (1 + scale) per "
-         "generation for the six-decimal matrices, times the magnification 1/sqrt|det| of the most shrinking written matrix; use instances are compared as the shapes they instantiate",
+         "generation for the six-decimal matrices, times the magnification (> 1) of the source's viewport transforms; use instances are compared as the shapes they instantiate",
     design_ref="DESIGN.md section 3 C20")
 ASSUMPTIONS = ["the source's own shapes (elements()) are the reference: defects shared by reader and writer are C03's"]
 
@@ -108,22 +108,26 @@ def wellformed(out, text, what, tags):
         return False
 
 
-_MATRIX_TEXT = re.compile(r'matrix\(([^)]*)\)')
-
-
-def amplification(text):
-    """the written matrices carry six decimals (absolute error 5e-7 per entry); a written matrix that SHRINKS (the writer
-    undoing a magnifying viewport transform, e.g. 1/35 written as 0.028571) has that error magnified again by the viewport
-    transform when the text is re-read: the factor 1/sqrt|det| of the most shrinking written matrix, at least 1"""
+def amplification(svg, doc):
+    """the written matrices carry six decimals (absolute error 5e-7 per entry).  The writer undoes every viewport
+    transform V of the source by writing its inverse; on re-reading V is applied again, which multiplies the rounding of
+    the written inverse by the magnification of V.  The allowance therefore grows with the magnifying viewport
+    transforms OF THE SOURCE (a property of the input, not of what the writer produced): the product of the scale
+    factors > 1 of its svg elements, at least 1"""
     amp = 1.0
-    for m in _MATRIX_TEXT.finditer(text):
-        try:
-            a, b, c, d = [float(v) for v in m.group(1).replace(",", " ").split()[:4]]
-        except ValueError:
-            continue
-        det = abs(a * d - b * c)
-        if det > 0:
-            amp = max(amp, 1.0 / math.sqrt(det))
+    try:
+        els = [doc] + [e for e in doc.select() if e is not doc]
+    except Exception:  # noqa
+        els = [doc]
+    for e in els:
+        if isinstance(e, svg.SVG):
+            try:
+                m = svg.Matrix(e.viewbox_transform)
+                sc = math.sqrt(abs(m.a * m.d - m.b * m.c))
+                if sc > 1.0 and sc == sc and sc != float("inf"):
+                    amp *= sc
+            except Exception:  # noqa
+                pass
     return amp
 
 
@@ -145,7 +149,7 @@ def chain(svg, out, x0, tags, what, reify=True, files=False):
                  exc=type(e).__name__, **tags)
         return
     out.outcome = (len(s0), len(s1))
-    tolf = 4e-6 * amplification(t1)
+    tolf = 4e-6 * amplification(svg, x0)
     if not compare_gen(out, s0, s1, "%s: first generation" % what, dict(gen=1, **tags), tolf=tolf):
         return
     try:
@@ -161,8 +165,8 @@ def chain(svg, out, x0, tags, what, reify=True, files=False):
         out.fail("%s: later generation raised %s" % (what, type(e).__name__), None, repr(e), kind="later-exception",
                  exc=type(e).__name__, **tags)
         return
-    compare_gen(out, s2, s3, "%s: third vs second generation" % what, dict(gen=3, **tags), tolf=4e-6 * amplification(t3))
-    compare_gen(out, s1, s2, "%s: second vs first generation" % what, dict(gen=2, **tags), tolf=4e-6 * amplification(t2))
+    compare_gen(out, s2, s3, "%s: third vs second generation" % what, dict(gen=3, **tags), tolf=tolf)
+    compare_gen(out, s1, s2, "%s: second vs first generation" % what, dict(gen=2, **tags), tolf=tolf)
     if files:
         d = tempfile.mkdtemp(prefix="verif-c20-")
         try:
@@ -177,7 +181,7 @@ def chain(svg, out, x0, tags, what, reify=True, files=False):
                     if wellformed(out, txt, "%s: write_xml(%s)" % (what, ext), tags):
                         xf = svg.SVG.parse(io.StringIO(txt), reify=reify)
                         compare_gen(out, s0, observe_shapes(svg, xf), "%s: write_xml(%s)" % (what, ext), dict(gen=ext, **tags),
-                                    tolf=4e-6 * amplification(txt))
+                                    tolf=tolf)
                 except Exception as e:  # noqa
                     out.fail("%s: write_xml(%s) raised %s" % (what, ext, type(e).__name__), None, repr(e), kind="write-exception",
                              exc=type(e).__name__, **tags)
@@ -244,7 +248,9 @@ PAINTS = [dict(fill="black"), dict(fill="none", stroke="#ff0000"), dict(fill="#3
           dict(fill="#336699fe", stroke="#00ff0000", stroke_width=1.5)]
 LAYOUTS = ["flat", "group", "nested", "group-transformed", "two"]
 ROOTSET = [dict(), dict(viewBox="0 0 100 50", width=200, height=100), dict(width="2in", height="1in", viewBox="0 0 96 48"),
-           dict(viewBox="10 20 50 50", width=100, height=200)]
+           dict(viewBox="10 20 50 50", width=100, height=200),
+           # a viewport that shrinks by more than 1e3 (a determinant below any absolute epsilon meant for "singular")
+           dict(viewBox="0 0 10000 10000", width=5, height=5)]
 
 
 def make_shape(svg, kind, tf, paint, sid):
